@@ -8,6 +8,21 @@ BASE = json.load(open('/root/.vp/BASELINE.json'))['cmd'] if os.path.exists('/roo
 # id -> (engine, category, technique, level text, level note, design ref)
 E3NOTE = "Sequentially consistent interleavings at synchronisation granularity (locks, channels, select, WaitGroup, go statements, injected file-system effect points); atomics and un-instrumented dependencies (zapx, bbolt, roaring) execute atomically between scheduling points; timers never fire; exploration is exhaustive up to the stated deviation bound, not beyond. The source rewrite is regenerated from /repo's current tree on every run."
 CHECKS = {
+ "C06": ("E2-space", "model_checking",
+         "exhaustive enumeration of match streams × sort specifications × page settings through the real collector over a stub searcher, and of corpora × requests on real indexes, against a stable reference sort",
+         "(a) Collector level: the real TopNCollector over a stub searcher / doc-value reader is fed EVERY match stream up to a length bound over alphabets of scores and keys (present, missing, multi-valued), all binary score streams of length 12–13 (crossing the slice→heap store switch), ids assigned by every permutation, × 56 sort specifications × Size {0,1,2,3,5,11} × From {0,1,2,10} × PreAllocSizeSkipCap {1000,3}, plus SearchAfter from every hit under total orders. (b) Index level on both engines: every sequence of ≤3–4 documents over 6 profiles plus tied corpora, 65 sort specifications, every From/Size page and SearchAfter/SearchBefore from every hit with keys taken from DecodedSort. Oracle: stable sort of the matches in natural index order by the documented comparison; hits = positions [From, From+Size), Total, MaxScore; pages tile.",
+         "Natural order = arrival order (stub), insertion order (in-memory scorch, one document per batch), id order (upsidedown); default mode on multi-valued keys not compared; geo-distance keys not enumerated.",
+         "DESIGN.md §5 C06"),
+ "C16": ("E2-space", "model_checking",
+         "exhaustive enumeration of mapping trees (cartesian families) × a document alphabet, comparing a mapping with its JSON round trip",
+         "Four cartesian families of mapping trees built through the Go API (field: 7 types × all 64 option subsets × analyzer × date format; document: enabled × dynamic × default_analyzer × nested × _all × struct tag key for default/type/sub-document mappings; index-level defaults and dynamic flags × scoring model × type mappings; custom analysis components incl. Go-native vs JSON-native config values). For each valid mapping m and m2 = Unmarshal(Marshal(m)): m2 validates, JSON is a fixed point twice, a reflection walk over all exported fields is equal, MapDocument+Analyze of a 46-document alphabet (every value kind, wrong types, unmapped/disabled paths, _type dispatch, arrays of objects) gives identical fields, options, values, terms and locations; the same in strict mode and, for a subset, through a real New/Close/Open cycle.",
+         "Quick subsamples two families (every 11th / 7th member); invalid mappings are counted and skipped.",
+         "DESIGN.md §5 C16"),
+ "C17": ("E2-space", "model_checking",
+         "exhaustive enumeration of query trees / requests (JSON round trip), of ALL byte strings up to a length bound over a syntax alphabet (parser robustness), and of all grammar sentences up to 3 clauses (meaning) against constructed queries and the reference evaluator",
+         "(a) every query of the C02 family plus option variants and every ordered pair under 16 compound forms: ParseQuery(Marshal(q)) parses, JSON is a fixed point, hits and scores are bit-identical on both engines; search requests (sorts, paging, search_after/before, facets, highlight, fields) round-trip to equal JSON and equal results. (b) EVERY string of length ≤4 (quick) / ≤5 (thorough) over a 21-symbol syntax alphabet through the query-string parser: no panic, terminates, answer independent of what the pooled lexer parsed before; accepted queries marshal and re-parse. (c) every sentence of ≤3 signed clauses over the documented clause forms: parsed query = directly constructed boolean query (hits and scores) = three-valued reference evaluation.",
+         "A rejected input whose error text reveals a recovered internal failure counts as 'rejected' (observed, not alarmed); the JSON form of a Parse() result is a known finding.",
+         "DESIGN.md §5 C17"),
  "C15": ("E1-opseq", "model_checking",
          "explicit-state breadth-first search over operation sequences with canonical-state dedup; every transition re-executes the real KV store adapter",
          "Breadth-first search over operation sequences on the real boltdb, goleveldb, gtreap and moss adapters and the metrics wrapper: execute a batch of ≤2 entries from Set/Delete/Merge(+1) over keys {a, a\\x00, a\\xff, a\\xffb, b, \\xff} and values {'', 1, 2}, open a reader, close a reader (depth 3 quick / 4 thorough, plus every single batch from the empty store). Every transition replays its path on a fresh store under a hang watchdog and compares — on a fresh reader and on every still-open reader against the model as of its creation — Get of every key and an absent one, MultiGet, PrefixIterator for 5 prefixes and RangeIterator for all (start,end) pairs incl. nil bounds, plain and after Seek to every key, as exact key/value sequences against a sorted-map model with a counter merge operator. States merged by (per-key model fact, multiset of open snapshot contents).",
